@@ -9,6 +9,7 @@ mod util;
 mod angles;
 mod curve;
 mod topo;
+mod closest;
 
 pub struct State {
     pub slots: std::collections::HashMap<String, Box<dyn std::any::Any>>,
@@ -26,6 +27,7 @@ fn dispatch(rec: &Value, st: &mut State) -> Value {
         "angles" => angles::exec(rec, st),
         "curve" => curve::exec(rec, st),
         "topo" => topo::exec(rec, st),
+        "closest" => closest::exec(rec, st),
         _ => json!({"unknown_module": true}),
     }
 }
